@@ -85,7 +85,7 @@ func runConc(k *ConcCase) (line, out string, err error) {
 	if !strings.HasPrefix(prev, "r/") {
 		return "", "", fmt.Errorf("order not ready: %s", prev)
 	}
-	_, der, _ := w.csr(0, "match")
+	_, der, _ := w.csr(0, "match", 0)
 	payload, _ := json.Marshal(map[string]string{"csr": base64.RawURLEncoding.EncodeToString(der)})
 	ths := make([]*thread, len(k.Ths))
 	for i, kind := range k.Ths {
